@@ -201,6 +201,18 @@ fn add_relations(t: &mut Tape<'_>, c: &mut CmdSpec, exp: Option<&ExpLevel>) {
     let on_line = |a: &ArgSpec| exp.map(|e| e.args.contains_key(&a.id)).unwrap_or(false);
     let env_only: Vec<String> = c.args.iter().filter(|a| !on_line(a) && matches!(&a.env, Some((_, Some(_))))).map(|a| a.id.clone()).collect();
     let line: Vec<usize> = (0..n).filter(|i| on_line(&c.args[*i])).collect();
+    if !env_only.is_empty() && !line.is_empty() && c.groups.is_empty() && t.chance(1, 8) {
+        // a group whose only present member is set through the environment, and a command-line argument that
+        // conflicts with the group: presence through env is explicit presence, also for the group
+        let x = *t.pick(&line);
+        let y = t.pick(&env_only).clone();
+        if c.args[x].id != y {
+            let gid = "envgrp".to_owned();
+            c.groups.push(vmodel::GroupSpec { id: gid.clone(), args: vec![y], multiple: true, ..Default::default() });
+            c.args[x].conflicts_with.push(gid);
+            return;
+        }
+    }
     if !env_only.is_empty() && !line.is_empty() && t.chance(1, 6) {
         let x = *t.pick(&line);
         let y = t.pick(&env_only).clone();
@@ -211,6 +223,23 @@ fn add_relations(t: &mut Tape<'_>, c: &mut CmdSpec, exp: Option<&ExpLevel>) {
             c.args[j].overrides_with.push(xid);
         }
     }
+}
+
+/// `(x, group)`: x comes from the command line, conflicts with `group`, and a member of `group` is set through its
+/// environment variable only. An environment value makes the argument (and therefore its groups) explicitly present,
+/// so the line has to be rejected with ArgumentConflict.
+fn conflict_with_env_group(level: &CmdSpec, origins: &BTreeMap<String, Origin>) -> Option<(String, String)> {
+    for a in &level.args {
+        if origins.get(&a.id) != Some(&Origin::CommandLine) {
+            continue;
+        }
+        for g in &level.groups {
+            if a.conflicts_with.contains(&g.id) && g.args.iter().any(|m| matches!(origins.get(m), Some(Origin::Env(_)))) {
+                return Some((a.id.clone(), g.id.clone()));
+            }
+        }
+    }
+    None
 }
 
 /// Is there an override relation between an argument that comes from the command line and one that comes from its
@@ -248,7 +277,7 @@ impl Property for Sources {
     }
     fn budget(&self, tier: Tier) -> Budget {
         Budget {
-            cases: tier.pick(250_000, 15_000_000),
+            cases: tier.pick(1_000_000, 15_000_000),
             tape_len: 2500,
         }
     }
@@ -337,6 +366,28 @@ impl Property for Sources {
             Err(p) => return Verdict::Fail(Failure::from_panic(&p)),
             Ok(r) => r,
         };
+        let group_conflict = levels.iter().find_map(|(lv, m)| conflict_with_env_group(lv, m));
+        if let (Some((x, g)), false) = (&group_conflict, case.ignore_errors_probe) {
+            return match &res {
+                Err(e) if e.kind() == ErrorKind::ArgumentConflict => {
+                    ctx.label("conflict-with-group-present-through-env");
+                    ctx.nontrivial();
+                    Verdict::Pass
+                }
+                Err(e) if env_invalid && matches!(e.kind(), ErrorKind::ValueValidation | ErrorKind::InvalidValue) => Verdict::Pass,
+                other => Verdict::fail(
+                    "sources:env-presence-not-honoured-for-group",
+                    format!(
+                        "argv {:?}: {x:?} (command line) conflicts with group {g:?}, whose member is set through its environment variable; expected ArgumentConflict, got {}",
+                        case.argv,
+                        match other {
+                            Ok(_) => "Ok".to_owned(),
+                            Err(e) => format!("{:?}", e.kind()),
+                        }
+                    ),
+                ),
+            };
+        }
         let m = match res {
             Err(e) => {
                 if env_invalid && matches!(e.kind(), ErrorKind::ValueValidation | ErrorKind::InvalidValue) {
